@@ -250,7 +250,7 @@ def check_spec_replay(prop, tier, seed, owners, overrides, n_quick, n_thorough, 
     for b in allb[:1] + bhvs[:1]:
         rep.sample(b)
     from .acnsim_trace import trace_validation
-    trace_validation(rep, prop, owners, seed + hash_prop(prop), 60 if tier == "quick" else 1500)
+    trace_validation(rep, prop, owners, seed + hash_prop(prop), 60 if tier == "quick" else 1500, repo_tests=True)
     return rep
 
 
